@@ -359,14 +359,15 @@ fn check_arch(db: &LayoutDb, x: &Arch, idx: usize, seed: u64, sink: &Sink) {
 		Err(e) => return report("tar_structure", "mismatch", e),
 	};
 	let intact = x.cut_entry == 0;
+	let names: Vec<String> = entries.iter().map(|e| e.name.clone()).collect();
+	if names != x.writer {
+		// the crafted archives below are assembled from the writer's entries: without them, stop here
+		return report("entry_order", "mismatch", format!("entries {:?}, model {:?}", names, x.writer));
+	}
 	if intact && x.arch == x.writer && x.version == [2, 0, 0] {
 		// --- what the writer produced ---
 		if arch.len() < 10 || &arch[..10] != b"peppi.json" {
 			report("signature", "mismatch", "the archive does not start with peppi.json".into());
-		}
-		let names: Vec<String> = entries.iter().map(|e| e.name.clone()).collect();
-		if names != x.writer {
-			report("entry_order", "mismatch", format!("entries {:?}, model {:?}", names, x.writer));
 		}
 		if arch.len() % 512 != 0 || !arch[arch.len() - 1024..].iter().all(|b| *b == 0) {
 			report("tar_structure", "mismatch", "archive is not terminated by two zero blocks".into());
